@@ -308,6 +308,7 @@ def run(ctx):
     outs = c08.minimax_outcomes(ctx)
     sub = type(ctx)(ctx.prop, ctx.tier, ctx.facts, ctx.facts_info, ctx.seed)
     c08.r1_key(sub, outs)
+    c08.r5_cache_primitives(sub)
     for s in sub.samples:
         ctx.ob('C09.R3-functional-cache', s['function'], s['instance'], s['ok'], found=s['found'], expected=s['expected'],
                why='with an influencer missing from the key two workers can store different values under one key and a third reads '
